@@ -88,6 +88,15 @@ impl GlideProcessor {
         });
         (c.a1, c.a2, c.b0, c.b1, c.b2)
     }
+
+    /// Verification hook: `(min_fc, max_fc, cached_t)` as stored, as bit patterns
+    pub fn verif_params(&self) -> (u32, u32, u32) {
+        (
+            self.min_fc.to_bits(),
+            self.max_fc.to_bits(),
+            self.cached_t.to_bits(),
+        )
+    }
 }
 
 fn coeffs(fs: Hertz<f32>, f0: Hertz<f32>) -> Coefficients<f32> {
